@@ -272,6 +272,9 @@ func (e *hEnv) escTarget(depth int) string {
 		e.T,
 		"sub1", "keep1.txt", ".",
 		filepath.Join(e.S, "out"),
+		filepath.Join(e.S, "out.old"),
+		up(depth) + "out.old",
+		filepath.Join(e.S, "out.old", "victim.txt"),
 	}
 	return ts[e.r.Intn(len(ts))]
 }
@@ -288,6 +291,8 @@ func (e *hEnv) fileTarget(depth int) string {
 		up(depth) + "created-by-escape",
 		filepath.Join(e.S, "victimdir", "created-by-escape"),
 		filepath.Join(e.S, "in.car"),
+		filepath.Join(e.S, "out.old", "victim.txt"),
+		up(depth) + "out.old/created-by-escape",
 	}
 	return ts[e.r.Intn(len(ts))]
 }
@@ -302,6 +307,10 @@ func (e *hEnv) dirTarget(depth int) string {
 		filepath.Join(e.S, "victimdir", "newsub"),
 		filepath.Join(e.S, "newdir-by-escape"),
 		filepath.Join(e.S, "work"),
+		filepath.Join(e.S, "out.old"),
+		up(depth) + "out.old",
+		filepath.Join(e.S, "out.old"),
+		up(depth) + "out.old/sub",
 	}
 	return ts[e.r.Intn(len(ts))]
 }
@@ -565,6 +574,22 @@ func c17Shapes() []c17Shape {
 			}
 			return hCase{Roots: roots, Paths: []string{"unknown", "x"}}
 		}},
+		{label: "symlink entry named like the output root, then further roots", wrote: false, whole: func(e *hEnv) hCase {
+			// a symlink entry named "..", "." or "x/.." resolves to the output directory itself; what is
+			// extracted by the later roots must still land inside it
+			nm := []string{"..", ".", "x/..", "./", "a/../.."}[e.r.Intn(5)]
+			first := hDir(hEnt(nm, hSym(e.dirTarget(0))))
+			if e.r.Intn(3) == 0 {
+				first.Entries = append(first.Entries, e.benign()...)
+			}
+			second := hDir(hEnt("victim.txt", e.file("after-root-swap")), hEnt("file", e.file("after-root-swap")), hEnt("created-by-escape", e.file("after-root-swap")),
+				hEnt("sub", hDir(hEnt("planted.txt", e.file("after-root-swap")))))
+			roots := []*hNode{first, second}
+			if e.r.Intn(3) == 0 {
+				roots = append(roots, &hNode{Kind: "file", Content: e.content("file-root-after-swap")})
+			}
+			return hCase{Roots: roots, Paths: []string{"victim.txt", "sub"}}
+		}},
 		{label: "raw, file or symlink root", wrote: true, whole: func(e *hEnv) hCase {
 			switch e.r.Intn(5) {
 			case 0:
@@ -731,6 +756,10 @@ func c17MakeBox(r *rand.Rand, state string) c17Box {
 	must(os.WriteFile(filepath.Join(S, "victim.txt"), []byte("sentinel: must never change\n"), 0o644))
 	must(os.WriteFile(filepath.Join(S, "victimdir", "file"), []byte("sentinel in a directory\n"), 0o600))
 	must(os.Symlink("out", filepath.Join(S, "outlink")))
+	// a sibling whose path has the output directory's path as a *string* prefix (out vs out.old)
+	must(os.MkdirAll(filepath.Join(S, "out.old", "sub"), 0o755))
+	must(os.WriteFile(filepath.Join(S, "out.old", "victim.txt"), []byte("sentinel in out.old\n"), 0o644))
+	must(os.WriteFile(filepath.Join(S, "out.old", "file"), []byte("sentinel in out.old\n"), 0o644))
 	must(os.WriteFile(filepath.Join(T, "p0", "outer.txt"), []byte("outer sentinel\n"), 0o644))
 	if state == "populated" {
 		must(os.WriteFile(filepath.Join(b.Out, "old.txt"), []byte("old\n"), 0o644))
